@@ -82,7 +82,7 @@ ASSUME F(<<42,42,35,35>>, TRUE, <<1>>) = {<<42,42,45,49>>}                      
 ASSUME F(<<36,36,35,35>>, TRUE, <<1,0>>) = {<<45,36,49,48>>}                              \* "$$##" -10 -> "-$10"
 ASSUME F(<<35,35,44,44,35>>, FALSE, <<1,1,0,0,0>>) = {<<37,49,49,44,48,48,48>>}           \* "##,,#" 11000 -> "%11,000"
 ASSUME F(<<35,35,35,35,45>>, TRUE, <<1>>) = {<<32,32,32,49,45>>}                          \* "####-" -1 -> "   1-"
-ASSUME F(<<46,35,35>>, FALSE, <<0,0>>) = {<<46,48,48>>, <<37,48,46,48,48>>}               \* ".##" 0 -> ".00" (or "%0.00")
+ASSUME F(<<46,35,35>>, FALSE, <<0,0>>) = {<<46,48,48>>}                                     \* ".##" 0 -> ".00" (it fits: no %)
 ASSUME SciAdmitted(ParseNum(<<35,35,46,35,35,35,94,94,94,94>>), FALSE, <<1,0,0,0>>, 69, 45, 0, 1)
          = {<<32,49,46,48,48,48,69,45,48,49>>}                                            \* "##.###^^^^" .1 -> " 1.000E-01"
 ASSUME SciAdmitted(ParseNum(<<35,46,35,35,35,35,94,94,94,94>>), FALSE, <<1,0,0,0>>, 69, 43, 0, 0)
